@@ -4,7 +4,7 @@
 set -e
 OUT="$1"; shift
 REPO="${VERIF_REPO:-/repo}"
-H=/verif/harness
+H=${VERIF_HOME:-/verif}/harness
 export GOFLAGS=-mod=mod GOPROXY=off
 OVL="$(dirname "$OUT")/overlay.$$.json"
 mkdir -p "$(dirname "$OUT")"
